@@ -10,7 +10,7 @@ BOUNDS = {
     "quick": "piecewise-constant and piecewise-linear functions with 1..4 pieces, arbitrary real breakpoints and "
              "values; symbolic interval ends a < b (plus a split point c and a second interval) anywhere in the "
              "support; symbolic evaluation times (scalar and list of two)",
-    "thorough": "1..6 pieces, same symbolic interval ends / times",
+    "thorough": "1..8 pieces, same symbolic interval ends / times",
 }
 OUTSIDE = "more pieces; lists of more than two intervals / times; float rounding"
 ASSUMPTIONS = ["oracle: sum over pieces of overlap length x value (trapezoid for linear pieces) with an "
@@ -18,7 +18,7 @@ ASSUMPTIONS = ["oracle: sum over pieces of overlap length x value (trapezoid for
 
 
 def configs(tier):
-    P = 4 if tier == "quick" else 6
+    P = 4 if tier == "quick" else 8
     for kind in ("const", "lin"):
         for p in range(1, P + 1):
             for what in ("interval", "additive", "two", "eval", "plot", "bounds"):
